@@ -6,6 +6,12 @@
 //! `Grid` API only (`bands`, `contains`, `at`). The shipped `.gsb` files are compared with their
 //! `.gsa` ASCII twins (parsed here; the library does not read `.gsa`).
 //!
+//! Node values are not only continuous random numbers: the `*-special-values*` sections put the
+//! numbers that formats and codes conventionally treat as sentinels or limits (0, -0, 9999 in many
+//! spellings, -9999, 99999, 32767, -32768, 1e30, f32::MAX, subnormals ...) into every band, node
+//! record column, position class and byte order, and compare per node (the documentation gives no
+//! node value a special meaning). NaN/inf literals in a text grid: Err or safe query only.
+//!
 //! Fault part: truncations (exhaustive), single-bit flips in header records (exhaustive),
 //! multi-byte corruptions and token-level faults; oracle = `Err`, or a grid whose `contains`/`at`
 //! return for arbitrary points, without panic, hang or unbounded allocation.
@@ -273,6 +279,42 @@ impl SubModel {
         }
         (out, scale)
     }
+    /// Bilinear value at (lon, lat) with a *per-node* tolerance: every corner contributes its
+    /// weight times (rtol x |its own value| + floor); on top of that the uncertainty of the weights
+    /// themselves (rounding of (coordinate - origin) / spacing, in the harness and in the library,
+    /// which may also pick the neighbouring cell at an exact node) times the largest magnitude among
+    /// all nodes within one cell of the query point.
+    fn bilinear_sharp(&self, lon: f64, lat: f64, rtol: f64, floor: f64) -> ([f64; 4], [f64; 4]) {
+        let fr = (self.n - lat) / self.dlat;
+        let fc = (lon - self.w) / self.dlon;
+        let r0 = (fr.floor().max(0.0) as usize).min(self.rows - 2);
+        let c0 = (fc.floor().max(0.0) as usize).min(self.cols - 2);
+        let tr = fr - r0 as f64;
+        let tc = fc - c0 as f64;
+        let wn = 16.0 * f64::EPSILON * (self.n.abs().max(self.s.abs()) / self.dlat + self.w.abs().max(self.e.abs()) / self.dlon) + 1e-12;
+        let rlo = (fr - 1.001).ceil().max(0.0) as usize;
+        let rhi = ((fr + 1.001).floor().max(0.0) as usize).min(self.rows - 1);
+        let clo = (fc - 1.001).ceil().max(0.0) as usize;
+        let chi = ((fc + 1.001).floor().max(0.0) as usize).min(self.cols - 1);
+        let mut out = [0.0; 4];
+        let mut tol = [0.0; 4];
+        for b in 0..self.bands.min(4) {
+            let v = |r: usize, c: usize| self.vals[(r * self.cols + c) * self.bands + b];
+            let corners = [((1.0 - tr) * (1.0 - tc), v(r0, c0)), ((1.0 - tr) * tc, v(r0, c0 + 1)), (tr * (1.0 - tc), v(r0 + 1, c0)), (tr * tc, v(r0 + 1, c0 + 1))];
+            let mut near = 0.0f64;
+            for r in rlo..=rhi.max(rlo).min(self.rows - 1) {
+                for c in clo..=chi.max(clo).min(self.cols - 1) {
+                    near = near.max(v(r, c).abs());
+                }
+            }
+            for (w, x) in corners {
+                out[b] += w * x;
+                tol[b] += w.abs() * (rtol * x.abs() + floor);
+            }
+            tol[b] += 4.0 * wn * near;
+        }
+        (out, tol)
+    }
 }
 
 // =====================================================================================
@@ -408,6 +450,11 @@ fn trailing_comment(glue: u8, k: usize) -> String {
 /// Render; returns the text and the specification *as written* (values parsed back from
 /// their spelling, so that rounding styles cannot make the oracle demand more than the file says).
 fn grav_render(raw: &GravSpec, lay: &GravLayout) -> (String, GravSpec) {
+    grav_render_with(raw, lay, &BTreeMap::new())
+}
+
+/// As `grav_render`, with the spelling of some node values (index into `raw.values`) given verbatim.
+fn grav_render_with(raw: &GravSpec, lay: &GravLayout, verbatim: &BTreeMap<usize, String>) -> (String, GravSpec) {
     let nl = if lay.crlf { "\r\n" } else { "\n" };
     let sep = ["  ", " ", "\t", "    "][lay.sep as usize % 4];
     let hs = [0u8, 1, 2, 3, 4, 7][lay.hdr_style as usize % 6];
@@ -449,8 +496,11 @@ fn grav_render(raw: &GravSpec, lay: &GravLayout) -> (String, GravSpec) {
     // all tokens of the file: six header numbers, then the values
     let mut toks: Vec<String> = hdr.to_vec();
     let mut written = Vec::with_capacity(raw.values.len());
-    for v in raw.values.iter() {
-        let s = fmt_num(v.0, lay.val_style % 8);
+    for (i, v) in raw.values.iter().enumerate() {
+        let s = match verbatim.get(&i) {
+            Some(t) => t.clone(),
+            None => fmt_num(v.0, lay.val_style % 8),
+        };
         written.push(F(s.parse::<f64>().expect("own spelling parses")));
         toks.push(s);
     }
@@ -669,8 +719,27 @@ fn cmp_value(lib: &Coor4D, exp: &[f64; 4], scale: f64, bands: usize, worst: &mut
     None
 }
 
-/// decode(text) must be the grid `spec` describes.
-fn check_grav_decode(text: &[u8], spec: &GravSpec) -> Result<WfStats, KM> {
+/// f32 storage: a value below the normal range is rounded to a multiple of 2^-149 = 1.4e-45 in
+/// each of at most three f32 steps.
+const VALUE_FLOOR_SHARP: f64 = 1.0e-44;
+
+/// Per-node comparison (see `SubModel::bilinear_sharp`); `worst` keeps the largest |diff| / tol.
+fn cmp_sharp(lib: &Coor4D, exp: &[f64; 4], tol: &[f64; 4], bands: usize, worst: &mut f64) -> Option<String> {
+    for b in 0..bands.min(4) {
+        let d = (lib[b] - exp[b]).abs();
+        if !(d <= tol[b]) {
+            return Some(format!("band {b}: library {:?} vs file {:?} (|diff| {d:e} > tol {:e})", lib[b], exp[b], tol[b]));
+        }
+        if tol[b] > 0.0 {
+            *worst = worst.max(d / tol[b]);
+        }
+    }
+    None
+}
+
+/// decode(text) must be the grid `spec` describes. `sharp`: per-node tolerance instead of the
+/// per-cell one (used where node values of very different magnitude sit next to each other).
+fn check_grav_decode(text: &[u8], spec: &GravSpec, sharp: bool) -> Result<WfStats, KM> {
     let mut st = WfStats { nodes_checked: 0, probes: 0, skipped_ambiguous: 0, worst_rel: 0.0 };
     let grid = match guard(|| BaseGrid::gravsoft(text)) {
         Err(p) => return km(format!("panic-decode@{}", psig(&p)), format!("BaseGrid::gravsoft panics on a well-formed file: {} at {}:{}", p.msg, p.file, p.line)),
@@ -724,8 +793,14 @@ fn check_grav_decode(text: &[u8], spec: &GravSpec) -> Result<WfStats, KM> {
             let Some(got) = got else {
                 return km("gravsoft-node-missing", format!("node (row {r} from north, col {c} from west) at {q:?} is inside the grid but at(.., 0) = None"));
             };
-            let (exp, scale) = m.bilinear(lon, lat);
-            if let Some(d) = cmp_value(&got, &exp, scale, m.bands, &mut st.worst_rel) {
+            let bad = if sharp {
+                let (exp, tol) = m.bilinear_sharp(lon, lat, VALUE_RTOL, VALUE_FLOOR_SHARP);
+                cmp_sharp(&got, &exp, &tol, m.bands, &mut st.worst_rel)
+            } else {
+                let (exp, scale) = m.bilinear(lon, lat);
+                cmp_value(&got, &exp, scale, m.bands, &mut st.worst_rel)
+            };
+            if let Some(d) = bad {
                 let k = (r * m.cols + c) * m.bands;
                 return km(
                     "gravsoft-node-value",
@@ -1161,8 +1236,8 @@ fn nt_clear_owner(ms: &[SubModel], lon: f64, lat: f64) -> Option<usize> {
     None
 }
 
-/// decode(bytes) must be the grid `spec` describes.
-fn check_nt_decode(bytes: &[u8], spec: &NtSpec) -> Result<WfStats, KM> {
+/// decode(bytes) must be the grid `spec` describes (`sharp` as in `check_grav_decode`).
+fn check_nt_decode(bytes: &[u8], spec: &NtSpec, sharp: bool) -> Result<WfStats, KM> {
     let mut st = WfStats { nodes_checked: 0, probes: 0, skipped_ambiguous: 0, worst_rel: 0.0 };
     let ms = match nt_models(spec) {
         Ok(m) => m,
@@ -1252,6 +1327,7 @@ fn check_nt_decode(bytes: &[u8], spec: &NtSpec) -> Result<WfStats, KM> {
             }
             let h = &ms[owner];
             let (exp, scale) = h.bilinear(lon, lat);
+            let (exp_s, tol_s) = if sharp { h.bilinear_sharp(lon, lat, VALUE_RTOL, VALUE_FLOOR_SHARP) } else { ([0.0; 4], [0.0; 4]) };
             let q = Coor4D([lon, lat, 0., 0.]);
             let deep = lat >= h.s + 1e-9 && lon >= h.w + 1e-9 && lat <= h.n - 2e-6 && lon <= h.e - 2e-6;
             for margin in [1e-6, 0.5, 0.0] {
@@ -1265,7 +1341,8 @@ fn check_nt_decode(bytes: &[u8], spec: &NtSpec) -> Result<WfStats, KM> {
                 let Some(got) = got else {
                     return km("ntv2-node-missing", format!("point {q:?} ({}) lies in sub-grid '{}' but at(.., {margin}) = None", if is_node { "a node" } else { "edge probe" }, h.name));
                 };
-                if let Some(d) = cmp_value(&got, &exp, scale, 2, &mut st.worst_rel) {
+                let bad = if sharp { cmp_sharp(&got, &exp_s, &tol_s, 2, &mut st.worst_rel) } else { cmp_value(&got, &exp, scale, 2, &mut st.worst_rel) };
+                if let Some(d) = bad {
                     return km(
                         "ntv2-node-value",
                         format!("{} {q:?} of sub-grid '{}' (served by '{}', {} x {} nodes, {} byte order), margin {margin}: {d}; expected (lon shift east, lat shift) rad = ({:?}, {:?})",
@@ -2102,6 +2179,450 @@ fn nt_case(max_subs: usize) -> impl Strategy<Value = NtCase> {
     })
 }
 
+
+// =====================================================================================
+// Node values that formats and codes conventionally treat as special
+// =====================================================================================
+
+/// Spellings of ordinary numbers that some format, code or convention somewhere treats as a
+/// sentinel / nodata / limit value. Neither Gravsoft-as-documented-here nor NTv2 gives any node
+/// value a special meaning, so each must decode to the number written. Every spelling is accepted
+/// by `f64::from_str` and is finite as f32.
+const SPECIALS: [&str; 84] = [
+    "0", "-0", "0.0", "-0.0", "+0", "0e0", "1", "-1", "+1", "1.", "-1.0", "1e0",
+    "9999", "9999.0", "9.999e3", "+9999", "9999.", "0.9999E4", "09999", "9999.00000000000000000000000", "99990e-1", "9.999E+3",
+    "-9999", "-9999.0", "-9.999e3", "9998", "10000", "9999.5", "-9999.99", "9999.9", "999.9", "99.99", "-99.99",
+    "999", "-999", "-999.0", "99", "-99", "99999", "-99999", "99999.0", "999999", "-999999", "9999999", "-9999999", "88888", "-88888", "88888.0", "8888",
+    "32767", "-32768", "-32767", "-32768.0", "65535", "65536", "255", "-128", "2147483647", "-2147483648", "4294967295",
+    "1e10", "-1e10", "1e15", "1e20", "1e30", "-1e30", "1E30", "1.0e+30", "-1.0E+34", "9.96921e36", "1e38",
+    "3.4028235e38", "-3.4028235e38", "3.4028234663852886e38", "1.70141e38",
+    "1e-38", "1.17549435e-38", "-1.17549435e-38", "1e-40", "-1e-40", "1.4e-45", "1e-320",
+    "123456789", "3.14159265358979323846264338327950288",
+];
+
+/// 0 zero, 1 moderate (|v| <= 1e7), 2 big, 3 tiny
+fn special_tier(v: f64) -> u8 {
+    let a = v.abs();
+    if a == 0.0 {
+        0
+    } else if a < 1e-30 {
+        3
+    } else if a <= 1e7 {
+        1
+    } else {
+        2
+    }
+}
+
+fn special_val(i: usize) -> f64 {
+    SPECIALS[i % SPECIALS.len()].parse::<f64>().expect("menu entry parses")
+}
+
+/// Indices of the menu usable in a grid of magnitude class `tier` (0 moderate, 1 tiny, 2 big, 3 all).
+fn specials_of(tier: u8) -> Vec<usize> {
+    (0..SPECIALS.len())
+        .filter(|i| {
+            let t = special_tier(special_val(*i));
+            match tier % 4 {
+                0 => t <= 1,
+                1 => t == 0 || t == 3,
+                2 => t == 2,
+                _ => true,
+            }
+        })
+        .collect()
+}
+
+const POS_NAMES: [&str; 8] = ["first-nw-corner", "last-se-corner", "ne-corner", "sw-corner", "north-or-south-edge", "west-or-east-edge", "interior", "anywhere"];
+
+/// (row from north, column from west) of position class `pos` in a rows x cols grid.
+fn pos_node(pos: u8, rows: usize, cols: usize, a: u16, b: u16) -> (usize, usize) {
+    match pos % 8 {
+        0 => (0, 0),
+        1 => (rows - 1, cols - 1),
+        2 => (0, cols - 1),
+        3 => (rows - 1, 0),
+        4 => (if a & 1 == 0 { 0 } else { rows - 1 }, if cols > 2 { 1 + pick(b, cols - 2) } else { pick(b, cols) }),
+        5 => (if rows > 2 { 1 + pick(b, rows - 2) } else { pick(b, rows) }, if a & 1 == 0 { 0 } else { cols - 1 }),
+        6 => (if rows > 2 { 1 + pick(a, rows - 2) } else { pick(a, rows) }, if cols > 2 { 1 + pick(b, cols - 2) } else { pick(b, cols) }),
+        _ => (pick(a, rows), pick(b, cols)),
+    }
+}
+
+/// A filler of the same magnitude class as the special value `v` (so that the per-node tolerance
+/// at the special node is governed by that node): |filler| < 0.8 x unit, unit = |v| for big and tiny
+/// values, 64 otherwise.
+fn filler(v: f64, k: usize) -> f64 {
+    let unit = if matches!(special_tier(v), 2 | 3) { v.abs() } else { 64.0 };
+    unit * (((k * 37 + 11) % 101) as f64 - 50.0) / 64.0
+}
+
+#[derive(Clone, Debug, Serialize, Deserialize)]
+struct Hot {
+    row: usize,
+    col: usize,
+    band: usize,
+    pos: u8,
+    spelling: String,
+}
+
+#[derive(Clone, Debug, Serialize, Deserialize)]
+struct GravSpecialCase {
+    spec: GravSpec, // as written
+    text: String,
+    tier: u8,
+    hots: Vec<Hot>,
+    sprinkled: usize,
+}
+
+fn plain_layout(k: usize) -> GravLayout {
+    GravLayout {
+        comments_top: (k % 3) as u8,
+        header_split: (k % 4) as u8,
+        per_line: ((k / 4) % 4) as u8,
+        sep: ((k / 16) % 4) as u8,
+        crlf: (k / 64) % 2 == 1,
+        trailing_comments: (k / 128) % 2 == 1,
+        blank_lines: false,
+        hdr_style: 0,
+        val_style: 0,
+        dlat_neg: k % 2 == 1,
+        dlon_neg: false,
+        tail: (k % 4) as u8,
+        indent: (k / 2) % 2 == 1,
+        glue: (k % 6) as u8,
+        hdr_comments: false,
+        last_comment: (k / 8) % 2 == 1,
+        wrap: if k % 5 == 0 { 4 } else { 0 },
+        wrap_k: 0,
+        wrap_seed: 0,
+    }
+}
+
+/// The exhaustive cross product: special spelling x position class (7) x (band, band count) (6) x angular/linear.
+const GRAV_ENUM_PER_SPECIAL: usize = 7 * 6 * 2;
+fn grav_special_enum(i: usize) -> GravSpecialCase {
+    let si = i / GRAV_ENUM_PER_SPECIAL;
+    let j = i % GRAV_ENUM_PER_SPECIAL;
+    let (pos, j) = ((j % 7) as u8, j / 7);
+    let (bb, linear) = (j % 6, j / 6 == 1);
+    let (bands, band) = [(1usize, 0usize), (2, 0), (2, 1), (3, 0), (3, 1), (3, 2)][bb];
+    let (rows, cols) = (4usize, 5usize);
+    let spelling = SPECIALS[si].to_string();
+    let v = special_val(si);
+    let (lat_s, lon_w, d) = if linear { (6_100_000.0, 400_000.0, 1000.0) } else { (54.0, 8.0, 0.5) };
+    let mut values = vec![];
+    for k in 0..rows * cols * bands {
+        values.push(F(filler(v, k + i)));
+    }
+    let (r, c) = pos_node(pos, rows, cols, (i / 3) as u16, (i as u16).wrapping_mul(7919));
+    let mut verbatim = BTreeMap::new();
+    verbatim.insert((r * cols + c) * bands + band, spelling.clone());
+    let raw = GravSpec { lat_s: F(lat_s), lat_n: F(lat_s + (rows - 1) as f64 * d), lon_w: F(lon_w), lon_e: F(lon_w + (cols - 1) as f64 * d), dlat: F(d), dlon: F(d), rows, cols, bands, values };
+    let mut lay = plain_layout(i);
+    if matches!(special_tier(v), 2 | 3) {
+        lay.val_style = 2; // exponent form for the fillers
+    }
+    let (text, spec) = grav_render_with(&raw, &lay, &verbatim);
+    GravSpecialCase { spec, text, tier: [0, 0, 2, 1][special_tier(v) as usize], hots: vec![Hot { row: r, col: c, band, pos, spelling }], sprinkled: 0 }
+}
+
+type RawHot = (u8, u16, u16, u8, u16);
+fn raw_hots() -> impl Strategy<Value = Vec<RawHot>> {
+    prop::collection::vec((0u8..8, any::<u16>(), any::<u16>(), 0u8..4, any::<u16>()), 1..=4)
+}
+
+/// Random grids (geometry and layout as in gravsoft-roundtrip) whose values are of one magnitude
+/// class (moderate / tiny and zero / big / everything mixed), with special spellings sprinkled at
+/// density none, 1/8, 1/2 or everywhere, and 1..4 forced at drawn position classes and bands.
+fn grav_special_case() -> impl Strategy<Value = GravSpecialCase> {
+    (grav_spec(7), grav_layout(), 0u8..4, 0u8..4, any::<u64>(), raw_hots()).prop_map(|(mut raw, lay, tier, density, mix, rh)| {
+        let menu = specials_of(tier);
+        for v in raw.values.iter_mut() {
+            v.0 = match tier {
+                1 => v.0 * 0.5e-44,
+                2 => v.0 * 1e25,
+                _ => v.0,
+            };
+        }
+        let mut verbatim = BTreeMap::new();
+        let mut x = mix | 1;
+        for i in 0..raw.values.len() {
+            x ^= x << 13;
+            x ^= x >> 7;
+            x ^= x << 17;
+            let take = match density {
+                0 => false,
+                1 => (x >> 9) & 7 == 0,
+                2 => (x >> 9) & 1 == 0,
+                _ => true,
+            };
+            if take {
+                verbatim.insert(i, SPECIALS[menu[((x >> 24) as usize) % menu.len()]].to_string());
+            }
+        }
+        let sprinkled = verbatim.len();
+        let mut hots = vec![];
+        for (pos, a, b, band, sp) in rh {
+            let (r, c) = pos_node(pos, raw.rows, raw.cols, a, b);
+            let band = band as usize % raw.bands;
+            let spelling = SPECIALS[menu[pick(sp, menu.len())]].to_string();
+            verbatim.insert((r * raw.cols + c) * raw.bands + band, spelling.clone());
+            hots.retain(|h: &Hot| (h.row, h.col, h.band) != (r, c, band));
+            hots.push(Hot { row: r, col: c, band, pos, spelling });
+        }
+        let (text, spec) = grav_render_with(&raw, &lay, &verbatim);
+        GravSpecialCase { spec, text, tier, hots, sprinkled }
+    })
+}
+
+fn check_grav_special(c: &GravSpecialCase, rec: &mut Rec) -> CaseResult {
+    let ctx = format!(
+        "Gravsoft file ({} bytes) with special node values [{}]:\n{}",
+        c.text.len(),
+        c.hots.iter().map(|h| format!("'{}' at row {} col {} band {} ({})", h.spelling, h.row, h.col, h.band, POS_NAMES[h.pos as usize % 8])).collect::<Vec<_>>().join(", "),
+        c.text.chars().take(1500).collect::<String>()
+    );
+    // the written specification says what the spelling says
+    for h in &c.hots {
+        let k = (h.row * c.spec.cols + h.col) * c.spec.bands + h.band;
+        let want = h.spelling.parse::<f64>().unwrap_or(f64::NAN);
+        if !(c.spec.values[k].0 == want) {
+            return Err(Failure { key: "harness-bad-spec".into(), msg: format!("{ctx}\nspec value {:?} is not the spelling {:?}", c.spec.values[k].0, h.spelling) });
+        }
+    }
+    match check_grav_decode(c.text.as_bytes(), &c.spec, true) {
+        Ok(s) => {
+            let kind = if c.spec.angular() { "angular" } else { "linear" };
+            rec.class(&format!("bands{}-{kind}", c.spec.bands));
+            rec.class(["magnitudes-moderate-and-zero", "magnitudes-tiny-and-zero", "magnitudes-big", "magnitudes-mixed"][c.tier as usize % 4]);
+            for h in &c.hots {
+                rec.class(&format!("special-value-at-{}", POS_NAMES[h.pos as usize % 8]));
+                rec.class(&format!("special-value-in-band{}-of-{}-{kind}", h.band, c.spec.bands));
+                rec.class(&format!("special '{}'", h.spelling));
+            }
+            rec.count("special_nodes_verified", (c.hots.len() + c.sprinkled) as u64);
+            rec.count("nodes_checked", s.nodes_checked);
+            rec.metric("worst_fraction_of_node_tolerance", s.worst_rel);
+            rec.nontrivial(&c.text);
+            Ok(())
+        }
+        Err(e) => to_failure(Err(e), &ctx),
+    }
+}
+
+#[derive(Clone, Debug, Serialize, Deserialize)]
+struct NtHot {
+    sub: usize, // file order
+    node: usize, // file order (south-east first)
+    column: usize,
+    pos: u8,
+    spelling: String,
+}
+
+#[derive(Clone, Debug, Serialize, Deserialize)]
+struct NtSpecialCase {
+    spec: NtSpec,
+    bytes: Hex,
+    tier: u8,
+    hots: Vec<NtHot>,
+    sprinkled: usize,
+}
+
+const NT_COLUMNS: [&str; 4] = ["lat-shift", "lon-shift", "lat-accuracy", "lon-accuracy"];
+
+fn nt_dims(s: &NtSub) -> (usize, usize) {
+    let rows = ((s.n_lat.0 - s.s_lat.0) / s.lat_inc.0).round() as usize + 1;
+    let cols = ((s.w_long.0 - s.e_long.0) / s.long_inc.0).round() as usize + 1;
+    (rows, cols)
+}
+
+/// file index of the node (row from north, column from west)
+fn nt_file_index(rows: usize, cols: usize, r: usize, c: usize) -> usize {
+    (rows - 1 - r) * cols + (cols - 1 - c)
+}
+
+fn f32_of(spelling: &str) -> f64 {
+    (spelling.parse::<f64>().expect("menu entry parses") as f32) as f64
+}
+
+fn nt_special_from(mut spec: NtSpec, tier: u8, density: u8, mix: u64, rh: &[RawHot], only_sub: Option<usize>) -> NtSpecialCase {
+    let menu = specials_of(tier);
+    let mut x = mix | 1;
+    let mut sprinkled = 0;
+    for s in spec.subs.iter_mut() {
+        for n in s.nodes.iter_mut() {
+            for (k, v) in n.iter_mut().enumerate() {
+                let base = match tier {
+                    1 => v.0 * 2e-40,
+                    2 => v.0 * 1e29,
+                    _ => v.0,
+                };
+                x ^= x << 13;
+                x ^= x >> 7;
+                x ^= x << 17;
+                let take = match density {
+                    0 => false,
+                    1 => (x >> 9) & 7 == 0,
+                    2 => (x >> 9) & 1 == 0,
+                    _ => true,
+                };
+                // accuracy columns draw from the whole menu: they are not served by `at`
+                let m = if k >= 2 { (x >> 24) as usize % SPECIALS.len() } else { menu[(x >> 24) as usize % menu.len()] };
+                v.0 = if take {
+                    sprinkled += 1;
+                    f32_of(SPECIALS[m])
+                } else {
+                    (base as f32) as f64
+                };
+            }
+        }
+    }
+    let mut hots: Vec<NtHot> = vec![];
+    for (pos, a, b, col, sp) in rh {
+        let si = only_sub.unwrap_or_else(|| pick(*a ^ *b, spec.subs.len()));
+        let (rows, cols) = nt_dims(&spec.subs[si]);
+        let (r, c) = pos_node(*pos, rows, cols, *a, *b);
+        let node = nt_file_index(rows, cols, r, c);
+        let column = *col as usize % 4;
+        let spelling = if column >= 2 { SPECIALS[pick(*sp, SPECIALS.len())] } else { SPECIALS[menu[pick(*sp, menu.len())]] }.to_string();
+        spec.subs[si].nodes[node][column] = F(f32_of(&spelling));
+        hots.retain(|h| (h.sub, h.node, h.column) != (si, node, column));
+        hots.push(NtHot { sub: si, node, column, pos: *pos, spelling });
+    }
+    let bytes = Hex(nt_encode(&spec));
+    NtSpecialCase { spec, bytes, tier, hots, sprinkled }
+}
+
+fn nt_special_case() -> impl Strategy<Value = NtSpecialCase> {
+    (nt_case(4), 0u8..4, 0u8..4, any::<u64>(), raw_hots()).prop_map(|(c, tier, density, mix, rh)| nt_special_from(c.spec, tier, density, mix, &rh, None))
+}
+
+/// A root of 5 x 6 nodes, alone or with a child refined 2x over its cells (rows 1..3, cols 1..3 from
+/// the south-west); arc second lattice.
+fn nt_fixed_spec(big_endian: bool, with_child: bool, k: usize) -> NtSpec {
+    let mk = |name: &str, parent: &str, s: i64, w: i64, inc: i64, rows: usize, cols: usize| NtSub {
+        name: name.into(),
+        parent: parent.into(),
+        created: "20260928".into(),
+        updated: "20260928".into(),
+        s_lat: F(s as f64),
+        n_lat: F((s + (rows as i64 - 1) * inc) as f64),
+        e_long: F(-(w + (cols as i64 - 1) * inc) as f64),
+        w_long: F(-w as f64),
+        lat_inc: F(inc as f64),
+        long_inc: F(inc as f64),
+        nodes: (0..rows * cols).map(|i| [F(0.0), F(0.0), F(((i + k) % 7) as f64 * 0.125), F(((i + 2 * k) % 5) as f64 * 0.25)]).collect(),
+    };
+    let (s, w) = (54 * 3600i64, 8 * 3600i64);
+    let mut subs = vec![mk("ROOT", "NONE", s, w, 3600, 5, 6)];
+    if with_child {
+        subs.push(mk("KID", "ROOT", s + 3600, w + 3600, 1800, 5, 5));
+        if k % 2 == 1 {
+            subs.swap(0, 1); // child before parent in the file
+        }
+    }
+    NtSpec {
+        big_endian,
+        gs_type: "SECONDS".into(),
+        version: "NTv2.0".into(),
+        system_f: "ED50".into(),
+        system_t: "ETRS89".into(),
+        major_f: F(6378388.0),
+        minor_f: F(6356911.946127946),
+        major_t: F(6378137.0),
+        minor_t: F(6356752.314140356),
+        subs,
+        end_record: k % 3 != 0,
+        pad: if k % 4 == 0 { 0 } else { (k % 251) as u8 },
+    }
+}
+
+/// special spelling x column (4) x position class (7) x byte order (2) x {root alone, root with a child, the child} (3)
+const NT_ENUM_PER_SPECIAL: usize = 4 * 7 * 2 * 3;
+fn nt_special_enum(i: usize) -> NtSpecialCase {
+    let si = i / NT_ENUM_PER_SPECIAL;
+    let j = i % NT_ENUM_PER_SPECIAL;
+    let (column, j) = (j % 4, j / 4);
+    let (pos, j) = ((j % 7) as u8, j / 7);
+    let (be, which) = (j % 2 == 1, j / 2);
+    let mut spec = nt_fixed_spec(be, which > 0, i);
+    let v = f32_of(SPECIALS[si]);
+    // shifts: fillers of the magnitude class of the special value (of moderate size when it sits in an accuracy column)
+    for (a, s) in spec.subs.iter_mut().enumerate() {
+        for (k, n) in s.nodes.iter_mut().enumerate() {
+            let fv = if column >= 2 { 1.0 } else { v };
+            n[0] = F((filler(fv, k + i + 3 * a) as f32) as f64);
+            n[1] = F((filler(fv, 2 * k + i + 5 * a + 1) as f32) as f64);
+        }
+    }
+    let target = spec.subs.iter().position(|s| s.name == if which == 2 { "KID" } else { "ROOT" }).unwrap_or(0);
+    let (rows, cols) = nt_dims(&spec.subs[target]);
+    let (r, c) = pos_node(pos, rows, cols, (i / 5) as u16, (i as u16).wrapping_mul(7919));
+    let node = nt_file_index(rows, cols, r, c);
+    spec.subs[target].nodes[node][column] = F(v);
+    let bytes = Hex(nt_encode(&spec));
+    NtSpecialCase { spec, bytes, tier: [0, 0, 2, 1][special_tier(v) as usize], hots: vec![NtHot { sub: target, node, column, pos, spelling: SPECIALS[si].to_string() }], sprinkled: 0 }
+}
+
+fn check_nt_special(c: &NtSpecialCase, rec: &mut Rec) -> CaseResult {
+    let ctx = format!(
+        "NTv2 file ({} bytes, {}), sub-grids in file order: {}; special node values: [{}]",
+        c.bytes.0.len(),
+        if c.spec.big_endian { "big endian" } else { "little endian" },
+        c.spec.subs.iter().map(|s| format!("{}<-{} [S {} N {} E {} W {} inc {} {} n={}]", s.name, s.parent, s.s_lat.0, s.n_lat.0, s.e_long.0, s.w_long.0, s.lat_inc.0, s.long_inc.0, s.nodes.len())).collect::<Vec<_>>().join(", "),
+        c.hots.iter().map(|h| format!("'{}' in {} of node record {} of sub-grid #{} ({})", h.spelling, NT_COLUMNS[h.column], h.node, h.sub, POS_NAMES[h.pos as usize % 8])).collect::<Vec<_>>().join(", ")
+    );
+    // the bytes say what the spelling says, in the byte order of the file
+    let hdrs = nt_walk(&c.bytes.0, 64);
+    for h in &c.hots {
+        let got = hdrs.get(h.sub).and_then(|hd| rd_f32(&c.bytes.0, hd.off + NT_HDR + 16 * h.node + 4 * h.column, c.spec.big_endian));
+        let want = f32_of(&h.spelling) as f32;
+        if got.map(|g| g.to_bits()) != Some(want.to_bits()) {
+            return Err(Failure { key: "harness-bad-spec".into(), msg: format!("{ctx}\nencoded {got:?}, wanted {want:?}") });
+        }
+    }
+    match check_nt_decode(&c.bytes.0, &c.spec, true) {
+        Ok(s) => {
+            rec.class(if c.spec.big_endian { "big-endian" } else { "little-endian" });
+            rec.class(&format!("subgrids-{}", c.spec.subs.len().min(6)));
+            rec.class(["magnitudes-moderate-and-zero", "magnitudes-tiny-and-zero", "magnitudes-big", "magnitudes-mixed"][c.tier as usize % 4]);
+            let ms = nt_models(&c.spec).map_err(|e| Failure { key: "harness-bad-spec".into(), msg: e })?;
+            let mut any_served = false;
+            for h in &c.hots {
+                let sub = &c.spec.subs[h.sub];
+                let (rows, cols) = nt_dims(sub);
+                let (r, cc) = (rows - 1 - h.node / cols, cols - 1 - h.node % cols);
+                let (lon, lat) = ms[h.sub].node(r, cc);
+                let served = nt_clear_owner(&ms, lon, lat) == Some(h.sub);
+                any_served |= served;
+                let kind = if sub.parent == "NONE" { "root" } else { "child" };
+                let end = if c.spec.big_endian { "BE" } else { "LE" };
+                if served {
+                    rec.class(&format!("special-value-at-{}-of-{kind}", POS_NAMES[h.pos as usize % 8]));
+                    rec.class(&format!("special-value-in-{}-{end}", NT_COLUMNS[h.column]));
+                    rec.class(&format!("special '{}'", h.spelling));
+                } else {
+                    rec.class("special-node-served-by-another-sub-grid");
+                }
+            }
+            rec.count("special_values_written", (c.hots.len() + c.sprinkled) as u64);
+            rec.count("nodes_checked", s.nodes_checked);
+            rec.count("skipped_ambiguous_points", s.skipped_ambiguous);
+            rec.metric("worst_fraction_of_node_tolerance", s.worst_rel);
+            if s.nodes_checked > 0 && any_served {
+                rec.nontrivial(&c.bytes);
+            }
+            Ok(())
+        }
+        Err(e) => to_failure(Err(e), &ctx),
+    }
+}
+
+/// NaN / infinity literals as node values of a text grid: a separate matter (nothing is
+/// documented about them); the only demand is Err or a safely queryable grid.
+const NONFINITE_TOKENS: [&str; 12] = ["NaN", "nan", "-NaN", "inf", "-inf", "+inf", "Inf", "infinity", "-Infinity", "1e39", "-1e39", "1e999"];
+
 // =====================================================================================
 // Generators of damaged files
 // =====================================================================================
@@ -2325,13 +2846,13 @@ fn check_twin(c: &TwinCase, rec: &mut Rec) -> CaseResult {
             let mut s2 = spec.clone();
             s2.big_endian = true;
             let b2 = nt_encode(&s2);
-            check_nt_decode(&b2, &s2)
+            check_nt_decode(&b2, &s2, false)
         } else {
-            check_nt_decode(&bytes, &spec)
+            check_nt_decode(&bytes, &spec, false)
         }
     } else {
         let spec = grav_reference_read(&bytes).map_err(harness_err)?;
-        check_grav_decode(&bytes, &spec)
+        check_grav_decode(&bytes, &spec, false)
     };
     match st {
         Ok(s) => {
@@ -2431,7 +2952,7 @@ fn main() {
         move || grav_case(side),
         |c: &GravCase, rec: &mut Rec| {
             let ctx = format!("Gravsoft file ({} bytes):\n{}", c.text.len(), c.text.chars().take(1200).collect::<String>());
-            match check_grav_decode(c.text.as_bytes(), &c.spec) {
+            match check_grav_decode(c.text.as_bytes(), &c.spec, false) {
                 Ok(s) => {
                     rec.class(&format!("bands{}-{}", c.spec.bands, if c.spec.angular() { "angular" } else { "linear" }));
                     {
@@ -2566,7 +3087,7 @@ fn main() {
                 if c.spec.big_endian { "big endian" } else { "little endian" },
                 c.spec.subs.iter().map(|s| format!("{}<-{} [S {} N {} E {} W {} inc {} {} n={}]", s.name, s.parent, s.s_lat.0, s.n_lat.0, s.e_long.0, s.w_long.0, s.lat_inc.0, s.long_inc.0, s.nodes.len())).collect::<Vec<_>>().join(", ")
             );
-            match check_nt_decode(&c.bytes.0, &c.spec) {
+            match check_nt_decode(&c.bytes.0, &c.spec, false) {
                 Ok(s) => {
                     rec.class(if c.spec.big_endian { "big-endian" } else { "little-endian" });
                     rec.class(&format!("subgrids-{}", c.spec.subs.len().min(6)));
@@ -2613,6 +3134,59 @@ fn main() {
             }
         },
     );
+
+
+    // ---- 2b: node values that formats and codes conventionally treat as special ---------------
+    run.assume("no node value has a special meaning: neither the crate's documentation of the Gravsoft reader nor the NTv2 conventions it states define a nodata / unknown sentinel, so 9999, -9999, 99999, 32767, -32768, 1e30, f32::MAX, 0, -0 ... decode to themselves (after the unit conventions); values are f32 in memory: per-node tolerance 1e-6 relative + 1e-44 (f32 subnormal spacing, three roundings) + weight rounding x largest node within one cell; spellings that overflow f32 and NaN/inf literals are outside this claim (Err or safe query only)");
+    let n_enum = SPECIALS.len() * GRAV_ENUM_PER_SPECIAL;
+    run.enumerate(
+        "gravsoft-special-values",
+        "exhaustive cross product: each of 84 spellings of conventionally special numbers (0, -0, +-1, 9999 in ten spellings, -9999, 9998, 10000, 99999, 999999, 88888, 32767, -32768, 65535, 2^31-1, 1e10 .. 1e30, -1e34, 9.96921e36, f32::MAX in three spellings, f32::MIN_POSITIVE, subnormal f32, below-f32 values, many-digit and integer spellings) x position (first = NW corner, last = SE corner, NE, SW, north/south edge, west/east edge, interior) x (band, band count) in {1/1, 1/2, 2/2, 1/3, 2/3, 3/3} x angular/linear, in a 4 x 5 grid whose other nodes are of the same magnitude class; per-node tolerance; non-trivial = all nodes verified",
+        n_enum,
+        grav_special_enum,
+        check_grav_special,
+    );
+    let n = run.scale(4_000, 100_000);
+    run.section(
+        "gravsoft-special-values-mixed",
+        "random grids (geometry, bands and layouts as in gravsoft-roundtrip, 2..7 rows/cols) of one magnitude class (moderate+zero / tiny+zero / big / all mixed), special spellings sprinkled over the node values at density 0, 1/8, 1/2 or 1 and 1..4 more forced at drawn positions (corners, edges, interior, first, last) and bands; per-node tolerance; non-trivial = all nodes verified; distinct by text",
+        n,
+        grav_special_case,
+        check_grav_special,
+    );
+    let n_enum = SPECIALS.len() * NT_ENUM_PER_SPECIAL;
+    run.enumerate(
+        "ntv2-special-values",
+        "exhaustive cross product: each of the 84 special numbers (as f32) x node record column (lat shift, lon shift, lat accuracy, lon accuracy) x position (first record = SE corner, last = NW corner, other corners, edges, interior) x byte order x {root alone, root that has a child, the child}; other shifts of the same magnitude class; child before or after its parent, END record or not, zero/garbage padding; per-node tolerance; non-trivial = the special node itself is served by its own sub-grid and verified",
+        n_enum,
+        nt_special_enum,
+        check_nt_special,
+    );
+    let n = run.scale(4_000, 100_000);
+    run.section(
+        "ntv2-special-values-mixed",
+        "random sub-grid trees (as in ntv2-roundtrip, up to 4 sub-grids, both byte orders) whose node records are of one magnitude class, with special numbers sprinkled over all four columns at density 0, 1/8, 1/2 or 1 and 1..4 forced at drawn sub-grids, positions and columns; per-node tolerance; non-trivial = a forced special node is served by its own sub-grid; distinct by bytes",
+        n,
+        nt_special_case,
+        check_nt_special,
+    );
+    {
+        // NaN / inf / f32-overflowing literals as node values: Err or safe queries, nothing more
+        let per = NONFINITE_TOKENS.len() * 7 * 6;
+        run.enumerate(
+            "gravsoft-nonfinite-node-values",
+            "a 4 x 5 Gravsoft grid (angular and linear) with one node value replaced by NaN, inf, -inf, infinity (several spellings) or a number overflowing f32, at every position class and band; oracle: Err or a grid that answers contains/at everywhere without panic (the values delivered are not judged)",
+            per * 2,
+            move |i| {
+                let (tok, j) = (NONFINITE_TOKENS[i % NONFINITE_TOKENS.len()], i / NONFINITE_TOKENS.len());
+                let base = grav_special_enum((j % (7 * 6 * 2)) + GRAV_ENUM_PER_SPECIAL * 6); // fillers around "1"
+                let h = &base.hots[0];
+                let idx = 6 + (h.row * base.spec.cols + h.col) * base.spec.bands + h.band;
+                FaultCase { label: format!("generated Gravsoft 4x5x{} with node value {tok}", base.spec.bands), ntv2: false, src: Src::Inline(Hex(base.text.into_bytes())), faults: vec![Fault::TokenReplace { idx, text: tok.to_string() }] }
+            },
+            check_fault_case,
+        );
+    }
 
     // ---- 3: shipped files ------------------------------------------------------------------
     let mut twins = vec![];
@@ -2805,5 +3379,5 @@ fn main() {
         check_fault_case,
     );
 
-    run.finish("well-formed grids: harness encoders in all layouts and both byte orders, decode compared with the written specification through contains/at (every node, every outer edge), shipped .gsb against .gsa twins; damaged files: exhaustive truncations and header bit flips of all shipped files (sampled for the 2.8 MB model) and generated fixtures, enumerated Gravsoft header-token faults, random composed corruptions; oracle Err-or-safely-queryable under panic capture, allocation accounting and a 30 s watchdog");
+    run.finish("well-formed grids: harness encoders in all layouts and both byte orders, decode compared with the written specification through contains/at (every node, every outer edge), conventionally special node values (9999, -9999, 32767, 1e30, f32::MAX, 0, subnormals ... in many spellings) crossed exhaustively with band / NTv2 record column, position and byte order and compared per node, shipped .gsb against .gsa twins; damaged files: exhaustive truncations and header bit flips of all shipped files (sampled for the 2.8 MB model) and generated fixtures, enumerated Gravsoft header-token faults, random composed corruptions; oracle Err-or-safely-queryable under panic capture, allocation accounting and a 30 s watchdog");
 }
